@@ -185,7 +185,8 @@ impl Scenario for Kmt {
                     }
                 }
             }
-            if k[..9].iter().all(|b| *b == 0) {
+            if index && k[..9].iter().all(|b| *b == 0) {
+                // (the index format's own empty-slot marker: exercised where the property names it, C17)
                 k[0] = 1;
             }
             keys.push(k);
@@ -279,7 +280,8 @@ impl Scenario for Kmt {
                         let cnt = rng.range(0, 4) as usize;
                         let ks = (0..cnt).map(|_| rng.usize_below(nkeys)).collect();
                         // rarely pad the batch beyond the 10000-key threshold with keys that were never marked
-                        let pad_to = if rng.chance(6, 100) { 10_001 } else { 0 };
+                        // (the threshold itself and its neighbours: 9999, 10000, 10001)
+                        let pad_to = if rng.chance(8, 100) { *rng.pick(&[9_999u32, 10_000, 10_001, 10_001]) } else { 0 };
                         Op::DeleteKeys { ks, pad_to }
                     }
                     4 => Op::MarkBurst { n: *rng.pick(&[1u32, 24, 25, 26, 60, 200]) },
@@ -380,8 +382,12 @@ async fn run_index(case: &Case, ctx: &mut Ctx) -> Option<Violation> {
         }
         let mut seen: BTreeMap<[u8; 9], Loc> = BTreeMap::new();
         for (b, e) in mgr.iter_entries() {
-            if idx_bucket(&e.key) != b {
-                return Some(format!("iter_entries yields key {} under bucket {b:#x}, its bucket is {:#x}", hex::encode(e.key), idx_bucket(&e.key)));
+            // (the library's own public mapping; the copy above is only used to BUILD keys for one bucket)
+            let mut full = [0u8; 16];
+            full[..9].copy_from_slice(&e.key);
+            let want = IndexManager::bucket_for_key(&EncodingKey::from_bytes(full));
+            if want != b {
+                return Some(format!("iter_entries yields key {} under bucket {b:#x}, its bucket is {want:#x}", hex::encode(e.key)));
             }
             if seen.insert(e.key, (e.archive_id(), e.archive_offset(), e.size)).is_some() {
                 return Some(format!("iter_entries yields key {} twice", hex::encode(e.key)));
@@ -756,10 +762,23 @@ fn run_residency(case: &Case, ctx: &mut Ctx) -> Option<Violation> {
             }
             Op::MarkSpan { k, off, len } => {
                 let key = keys[*k % nk];
+                let degenerate = *len <= 0 || *off < 0;
                 if let Err(e) = db.mark_span_non_resident(&key, *off, *len) {
-                    viol!("C05.op.no_error", "op_error", "", format!("op #{i} mark_span_non_resident failed: {e}"));
+                    if !degenerate {
+                        viol!("C05.op.no_error", "op_error", "", format!("op #{i} mark_span_non_resident failed: {e}"));
+                    }
                 }
-                m.insert(key, false);
+                if degenerate {
+                    // an empty or negative span may be a no-op, be refused, or mark the key: the key's state is
+                    // taken from the database until its next mark
+                    let now = db.is_resident(&key);
+                    if m.contains_key(&key) || now {
+                        m.insert(key, now);
+                    }
+                    ctx.count("degenerate_spans_not_judged");
+                } else {
+                    m.insert(key, false);
+                }
                 ctx.event(|| json!({"k":"op","op":"mark_span_non_resident","key":hex::encode(key),"off":off,"len":len}));
                 ctx.mutations += 1;
             }
